@@ -3,6 +3,8 @@ pub mod cli;
 pub mod exec;
 pub mod frontend;
 pub mod linter;
+#[cfg(rrss_verif)]
+pub mod verif;
 
 pub fn run() -> i32 {
     let exit_code = match cli::cli(std::env::args()) {
